@@ -181,6 +181,10 @@ def run(ctx):
     part = pmap(c07.long_shard, [(seed, k, False, ORACLE) for k in range(len(c07.long_programs(seed)))])
     ctx.space("long-runs-nohazard", part, t0, programs=[n for n, _p, _k in c07.long_programs(seed)])
     ctx.require("run-longer-than-256-cycles", "run-longer-than-2000-cycles")
+    t0 = time.time()
+    part = pmap(c07.regsweep_shard, [(i, 16, False, ORACLE) for i in range(16)])
+    ctx.space("dependencies-through-every-register-nohazard", part, t0, registers="x1..x31", templates=12)
+    ctx.require("dependency-through-every-register")
     pipecmp.fixed_point(ctx, seed, False, False, 12, "fixed-point-F12-nohazard")
     if thorough:
         pipecmp.fixed_point(ctx, seed, True, False, 12, "fixed-point-F16-nohazard")
